@@ -18,6 +18,9 @@ import time
 import traceback
 
 _REPO = os.environ.get("VERIF_REPO", "/repo")
+_VERIF = os.path.dirname(os.path.dirname(os.path.dirname(os.path.abspath(__file__))))
+if _VERIF not in sys.path:
+  sys.path.insert(0, _VERIF)          # so that `import vf.sv` works whatever the cwd
 if _REPO not in sys.path:
   sys.path.insert(0, _REPO)
 
@@ -98,6 +101,12 @@ def _collect():
     add("stdlib_RegisterFile_8x8", lambda: RF.RegisterFile(Bits8, 8, 2, 1))
     add("stdlib_RegisterFile_const0", lambda: RF.RegisterFile(Bits8, 4, 1, 2, True))
     add("stdlib_RegisterFileRst", lambda: RF.RegisterFileRst(Bits8, 4, 1, 1, False, 3))
+  except Exception:       # pragma: no cover
+    traceback.print_exc()
+  try:
+    from vf.sv import corpus_extra
+    for n, cls in corpus_extra.EXTRA:
+      add(n, cls)
   except Exception:       # pragma: no cover
     traceback.print_exc()
   try:
@@ -456,6 +465,8 @@ def run_case(name, factory, case, backend, verbose=False, seed=SEED):
         while cyc + 1 < len(vectors):
           cyc += 1
           tv = vectors[cyc]
+          if tv is None and ref is None:
+            break       # PyMTL gave up on a random vector (recorded in pymtl_sim_error): stop here
           if tv is not None:
             case.TV_IN(proxies["tool"], tv)          # drives both E2 simulations
             if ref is not None:
@@ -602,13 +613,25 @@ def _diagnose(res, backend, ref_factory=None):
     try:
       m0 = ref_factory()
       m0.elaborate()
+      seen = {}
       for child in m0.get_child_components(repr):
         iname = _IDX.sub(lambda mm: "__" + mm.group(1), repr(child)[2:]).replace(".", "__")
         mm = re.search(r"(?m)^\s*(\w+)\s+%s\s*\n?\s*\(" % re.escape(iname), text)
-        if mm and not mm.group(1).startswith(type(child).__name__):
+        if not mm:
+          continue
+        if not mm.group(1).startswith(type(child).__name__):
           return (mm.group(0).strip(), "instance %s is emitted as module %s, but the PyMTL child %r is a %s "
                   "(whose module is defined in the file and never instantiated)"
                   % (iname, mm.group(1), child, type(child).__name__))
+        # children of one class built with different constructor arguments are different hardware
+        # and get different module names (the file defines one module per parameter set)
+        key = (type(child), repr(child._dsl.args), repr(sorted(child._dsl.kwargs.items())))
+        other = seen.get(mm.group(1))
+        if other is not None and other[0] != key:
+          return (mm.group(0).strip(), "instances %s and %s are both emitted as module %s although the PyMTL "
+                  "children were constructed with different arguments %s / %s"
+                  % (other[1], iname, mm.group(1), other[0][1], key[1]))
+        seen.setdefault(mm.group(1), (key, iname))
     except Exception:
       pass
   # 3. variables that are read although nothing in the whole file ever assigns them
@@ -628,6 +651,18 @@ def _diagnose(res, backend, ref_factory=None):
               "the text reads %s, which no statement in the file ever assigns (only declared): the "
               "value is X in a four-state simulator and 0 in a two-state one, never the PyMTL value"
               % ", ".join(n for n, _ in dead))
+  # 5. sign extension written as { {N{ <compound>[msb] }}, <compound> } without parentheses: the
+  #    select binds to the last operand of <compound> only (IEEE 1800 A.8.4: a select belongs to the
+  #    primary it follows), so the replicated operand is `a + b[7]`, not bit 7 of the sum
+  #    (DESIGN.md section 4 row 4; hand-read on `sext(s.a + s.b, 16)`)
+  if res.get("status") == "disagree":
+    mm = re.search(r"\{\s*\{\s*\d+\s*\{\s*([^{};]*?[^\s{};(]\s+(?:[-+*/%&|^]|<<|>>)\s+[^{};]*?\w\[\d+\])\s*\}\s*\}\s*,", text)
+    if mm and not mm.group(1).strip().startswith("("):
+      ln = [l.strip() for l in lines if mm.group(0) in l]
+      return (ln[0] if ln else mm.group(0),
+              "the replicated operand `%s` is a compound expression followed by a bit-select; the select "
+              "applies to the last primary only, so this is not the sign bit of the expression (and the "
+              "replication operand is as wide as the whole expression)" % mm.group(1).strip())
   # 4. several continuous assignments to one variable (DESIGN.md section 4 row 5)
   if backend == "yosys" and res.get("status") == "disagree":
     multi = [p for p in res.get("drivers", []) if "multiple drivers" in p]
